@@ -115,6 +115,30 @@ def rand_script(rng, n):
     return out
 
 
+def directed():
+    """scenario scripts that random generation reaches rarely: what happens around a via-circuit connection
+    that has completed (its source port is used again by an unrelated client), several connections in a row"""
+    B = [dict(a="CircStep", c=1, to="BUILDING"), dict(a="CircStep", c=1, to="BUILT"),
+         dict(a="CircStep", c=2, to="BUILDING"), dict(a="CircStep", c=2, to="BUILT")]
+    out = []
+    for late in (False, True):
+        for kind2 in ("normal", "resolve", "exit"):
+            s = B + [dict(a="ViaConnect", k="k1", c=1, late=late)] + ([dict(a="ConfAck")] if late else []) + [
+                dict(a="ViaAddr", k="k1", p=4001),
+                dict(a="NewStream", s=1, kind="normal", p=4001, ans="none", mode="imm"),      # the connection's own stream
+                dict(a="NewStream", s=2, kind=kind2, p=4001, ans="none", mode="imm"),         # the port is re-used by someone else
+                dict(a="ViaConnect", k="k2", c=2, late=False), dict(a="ViaAddr", k="k2", p=4002),
+                dict(a="NewStream", s=3, kind="normal", p=4002, ans="none", mode="imm")]
+            out.append(s)
+    # the second connection re-uses the first one's port after it completed
+    out.append(B + [dict(a="ViaConnect", k="k1", c=1, late=False), dict(a="ViaAddr", k="k1", p=4003),
+                    dict(a="NewStream", s=1, kind="normal", p=4003, ans="none", mode="imm"),
+                    dict(a="NewStream", s=2, kind="normal", p=4001, ans="none", mode="imm"),
+                    dict(a="CircStep", c=1, to="GONE"),
+                    dict(a="NewStream", s=3, kind="normal", p=4003, ans="none", mode="imm")])
+    return out
+
+
 def run(pid, tier, seed):
     rep = common.Report(pid, tier, seed)
     rep.assumptions = list(ASSUME)
@@ -122,7 +146,7 @@ def run(pid, tier, seed):
                           timeout=200 if tier == "quick" else 1200)
     rng = random.Random(seed)
     sims = pipeline.generate(rep, "AttachM_Gen", "AttachM_Gen.cfg", 400 if tier == "quick" else 4000, 30, seed)
-    scripts = list(sims) + [rand_script(rng, rng.choice([10, 20, 30])) for _ in range(300 if tier == "quick" else 4000)]
+    scripts = directed() + list(sims) + [rand_script(rng, rng.choice([10, 20, 30])) for _ in range(300 if tier == "quick" else 4000)]
     traces, seen = [], set()
     for s in scripts:
         traces.append(att.replay(s))
